@@ -62,7 +62,7 @@ func TestC12(t *testing.T) {
 }
 
 func c12Scenario(r *vf.Run, t *testing.T, id string, rng *rand.Rand) {
-	family := []string{"cut", "cut", "mutate", "mutate", "adversary", "adversary", "writefault", "close-race", "early"}[rng.Intn(9)]
+	family := []string{"cut", "cut", "mutate", "mutate", "adversary", "adversary", "writefault", "close-race", "early", "body-error"}[rng.Intn(10)]
 	k := 1 + rng.Intn(6)
 	if rng.Intn(4) == 0 {
 		k = 1 + rng.Intn(16)
@@ -81,7 +81,24 @@ func c12Scenario(r *vf.Run, t *testing.T, id string, rng *rand.Rand) {
 			q.ReadChunk = []int{0, 100, 5000, 16384}[rng.Intn(4)]
 		}
 	}
+	failing := map[string]bool{} // requests whose streamed body reader fails part way (family body-error)
+	if family == "body-error" {
+		for i, q := range reqs {
+			if i == 0 || rng.Intn(3) == 0 {
+				q.Method = "POST"
+				q.Body = make([]byte, 1+rng.Intn(40000))
+				rng.Read(q.Body)
+				q.BodyMode = 2 + rng.Intn(2)
+				q.ReadChunk = []int{0, 100, 5000, 16384}[rng.Intn(4)]
+				q.BodyErrAt = 1 + rng.Intn(len(q.Body))
+				failing[q.Tag] = true
+			}
+		}
+	}
 	earlyWindow := uint32([]int{0, 0, 1, 100, 1000}[rng.Intn(5)])
+	if family == "body-error" && rng.Intn(2) == 0 {
+		earlyWindow = 1 << 20
+	}
 	class := ""
 	replay := map[string]any{"family": family, "callers": k, "ending": ending}
 	failed := false
@@ -93,7 +110,7 @@ func c12Scenario(r *vf.Run, t *testing.T, id string, rng *rand.Rand) {
 	}
 	res := rt.RunBubble(t, id, 25*time.Second, func() {
 		opts := rt.ClientOpts{PeerSettings: []wire.Setting{{ID: 4, Val: 1 << 20}}}
-		if family == "early" {
+		if family == "early" || family == "body-error" {
 			opts.PeerSettings = []wire.Setting{{ID: 4, Val: earlyWindow}}
 		}
 		silence := false
@@ -155,7 +172,7 @@ func c12Scenario(r *vf.Run, t *testing.T, id string, rng *rand.Rand) {
 			data := make([][][]byte, len(reqs))
 			remaining := 0
 			for i, q := range reqs {
-				if streamOf[q.Tag] == 0 {
+				if streamOf[q.Tag] == 0 || failing[q.Tag] {
 					continue
 				}
 				data[i] = q.respData(streamOf[q.Tag])
@@ -167,7 +184,7 @@ func c12Scenario(r *vf.Run, t *testing.T, id string, rng *rand.Rand) {
 			for remaining > 0 {
 				var cands []int
 				for i, q := range reqs {
-					if streamOf[q.Tag] == 0 {
+					if streamOf[q.Tag] == 0 || failing[q.Tag] {
 						continue
 					}
 					tot := 1 + len(data[i])
@@ -394,6 +411,44 @@ func c12Scenario(r *vf.Run, t *testing.T, id string, rng *rand.Rand) {
 				e.P.Write(grants)
 			}
 			r.Inc("early_answers_to_blocked_uploads", int64(len(streamOf)))
+		case "body-error":
+			// a client-side fault in the middle of an upload: the body reader of some requests fails on the first read, inside
+			// the first frame, or after the server's window was opened again. The server answers every other request completely
+			// and never answers the failed ones. The failed ones must never be called successful, everything must be resolved in
+			// the end, and the other callers must get their responses whatever became of the failed uploads.
+			class = fmt.Sprintf("be/w%d", earlyWindow)
+			replay["server_window"] = earlyWindow
+			var grants []byte
+			for _, s := range streamOf {
+				grants = append(grants, rt.WindowUpdate(s, 1<<20)...)
+			}
+			if rng.Intn(2) == 0 {
+				e.P.Write(grants)
+				rt.Wait()
+				sendAll(frames, len(frames), func(int) bool { return true })
+			} else {
+				sendAll(frames, len(frames), func(int) bool { return true })
+				rt.Wait()
+				e.P.Write(grants)
+			}
+			rt.Wait()
+			for i, q := range reqs {
+				if !failing[q.Tag] {
+					continue
+				}
+				if done, _, _ := calls[i].Outcome(); done {
+					r.Inc("failed_uploads_resolved_while_the_connection_lives", 1)
+				} else {
+					r.Inc("failed_uploads_unresolved_until_the_connection_ends", 1)
+				}
+				rst := false
+				for _, f := range e.P.Frames() {
+					rst = rst || (f.Type == wire.TRstStream && f.Stream == streamOf[q.Tag])
+				}
+				if rst {
+					r.Inc("failed_uploads_reset_by_the_client", 1)
+				}
+			}
 		case "writefault", "close-race":
 			sendAll(frames, len(frames), func(int) bool { return true })
 			if family == "close-race" || true {
@@ -442,6 +497,14 @@ func c12Scenario(r *vf.Run, t *testing.T, id string, rng *rand.Rand) {
 				}
 				if family == "cut" && !delivered[q.Tag] {
 					fail("success-without-complete-response", fmt.Sprintf("family cut: request %s reported success but the server stream was cut before its response was complete", q.Tag))
+				}
+			}
+			if family == "body-error" {
+				switch {
+				case failing[q.Tag] && err == nil:
+					fail("success-without-response", fmt.Sprintf("family body-error/%s: request %s (stream %d) was reported successful although its body reader failed and the server never answered it", class, q.Tag, streamOf[q.Tag]))
+				case !failing[q.Tag] && delivered[q.Tag] && err != nil:
+					fail("complete-response-reported-as-error", fmt.Sprintf("family body-error/%s: request %s (stream %d) got its complete response from the server, yet the caller was told %v; the only thing that went wrong on this connection is another request's body reader", class, q.Tag, streamOf[q.Tag], err))
 				}
 			}
 			if family == "early" && delivered[q.Tag] && err != nil {
